@@ -19,6 +19,8 @@ def run(ck, ctx):
                      "has v = Err(..) aggregate, or is dominated by the Ok edge of WalRotator::sync() in the same function")
     ck.rule("R09.5", "Always mode: on every path from a WalRotator::sync() call to return, self.pending_acks is taken/drained "
                      "(each sync outcome resolves exactly the acks accumulated for it)")
+    ck.rule("R09.6", "recovery accepts everything the writer can fsync: the WAL entry decoder rejects a frame only for truncation or "
+                     "checksum mismatch, never for a limit the write path does not enforce")
     ck.rule("R09.2", "every overwrite of WalRotator.current_writer happens while the writer is provably clean "
                      "(None, freshly created, or just synced Ok) or is followed on all paths by setting a poison flag that "
                      "makes the next WalRotator::sync() return Err")
@@ -35,6 +37,8 @@ def run(ck, ctx):
         _r092(ck, prog, cfg)
         _r093(ck, prog, cfg)
         _r094(ck, prog, cfg)
+        from . import c10
+        c10.r106(ck, prog, cfg, "R09.6")
         ck.fn_count += len(prog.fns)
 
 
